@@ -316,6 +316,18 @@ Example distinct_statement_refuted_applies :
   = Some 24.
 Proof. exact ProfSqlProofs.distinct_statement_refuted_applies. Qed.
 
+(* The evaluator also interprets, and stmt_ok also refuses: DISTINCT in pre_joined (equal tree elements of different profiles
+   collapse), max in place of sum, a window written with > (the profile stored exactly at its start is lost) or with <= (a
+   profile stored exactly at its end is read: in a diff, on both sides).  On ex_profile stored twice (a third copy at the end
+   of the window): 24 as it should be, 12 / 12 / 12 / 36 under the four shapes. *)
+Example refused_shapes_change_the_total :
+  ex_total ex_stmt ex_D2 = Some 24 /\ ex_total ex_stmt ex_D3 = Some 24 /\
+  (stmt_ok 0 (ex_variant false true false false the_out) = false /\ ex_total (ex_variant false true false false the_out) ex_D2 = Some 12) /\
+  (stmt_ok 0 (ex_variant false false false false max_out) = false /\ ex_total (ex_variant false false false false max_out) ex_D2 = Some 12) /\
+  (stmt_ok 0 (ex_variant false false true false the_out) = false /\ ex_total (ex_variant false false true false the_out) ex_D2 = Some 12) /\
+  (stmt_ok 0 (ex_variant false false false true the_out) = false /\ ex_total (ex_variant false false false true the_out) ex_D3 = Some 36).
+Proof. exact ProfSqlProofs.refused_shapes_change_the_total. Qed.
+
 (* GROUP BY with wrapping sums keeps conservation and never needs more rows than the raw hand-over *)
 Theorem grouping_keeps_conservation : forall rows : list row,
   (rconserves rows -> rconserves (group_rows rows)) /\ (length (group_rows rows) <= length rows)%nat.
